@@ -105,11 +105,7 @@ func buildV(t *TypeD, a interface{}, dst reflect.Value) {
 		if m["nil"].(bool) {
 			dst.Set(reflect.Zero(dst.Type()))
 		} else {
-			b := toBytes(m["b"])
-			if len(b) == 0 {
-				b = []byte{}
-			}
-			dst.SetBytes(b)
+			dst.SetBytes(withSpare(toBytes(m["b"])))
 		}
 	case "list", "set":
 		m := a.(map[string]interface{})
@@ -160,12 +156,24 @@ func buildV(t *TypeD, a interface{}, dst reflect.Value) {
 			if len(u) == 0 {
 				*hp = nil
 			} else {
-				*hp = u
+				*hp = withSpare(u)
 			}
 		}
 	default:
 		panic("harness: kind " + t.K)
 	}
+}
+
+// withSpare returns a copy of b whose backing array has spare capacity filled with a guard
+// pattern: memory reachable from the value that no callee may touch.
+func withSpare(b []byte) []byte {
+	out := make([]byte, len(b), len(b)+6)
+	copy(out, b)
+	sp := out[len(b):cap(out)]
+	for i := range sp {
+		sp[i] = 0xEE
+	}
+	return out
 }
 
 // ---- Go value -> abstract JSON ------------------------------------------------
@@ -218,6 +226,7 @@ func projectV(w *bytes.Buffer, t *TypeD, rv reflect.Value, canon bool) {
 		}
 		if canon {
 			fmt.Fprintf(w, `"@%x/%d/%d",`, rv.Pointer(), rv.Len(), rv.Cap())
+			putBytes(w, rv.Bytes()[:rv.Cap()]) // including the spare capacity
 		}
 		w.WriteString(`{"nil":false,"b":`)
 		putBytes(w, rv.Bytes())
@@ -294,6 +303,7 @@ func projectV(w *bytes.Buffer, t *TypeD, rv reflect.Value, canon bool) {
 			if canon {
 				h := (*[3]uintptr)(unsafe.Pointer(hp))
 				fmt.Fprintf(w, `"@%x/%d/%d",`, h[0], h[1], h[2])
+				putBytes(w, (*hp)[:cap(*hp)]) // including the spare capacity
 			}
 			putBytes(w, *hp)
 		} else {
